@@ -312,16 +312,20 @@ package comdoc
 //@   standalone
 //@   requires (r.SectorSize == 512 || r.SectorSize == 4096) && r.Header != nil && (r.changed ==> r.writer != nil)
 //@   ghost stage int = 0
-//@   before call (*ComDoc).writeShortSAT(x): assert @short_table_first x == r && stage == 0
-//@   on call (*ComDoc).writeShortSAT(_) ret (e): stage = ite(e == nil, 1, -1)
-//@   before call (*ComDoc).writeDirStream(x): assert @directory_after_the_short_table x == r && stage == 1
-//@   on call (*ComDoc).writeDirStream(_) ret (e): stage = ite(e == nil, 2, -1)
-//@   before call (*ComDoc).allocSectorTables(x): assert @table_sectors_are_allocated_after_every_stream_has_its_sectors x == r && stage == 2
+//@   ghost ssatDone bool = false
+//@   ghost dirDone bool = false
+//@   ghost satDone bool = false
+//@   ghost msatDone bool = false
+//@   before call (*ComDoc).writeShortSAT(x): assert @short_table_rewritten_before_the_table_sectors_are_allocated x == r && stage == 0
+//@   on call (*ComDoc).writeShortSAT(_) ret (e): ssatDone = (e == nil)
+//@   before call (*ComDoc).writeDirStream(x): assert @directory_rewritten_before_the_table_sectors_are_allocated x == r && stage == 0
+//@   on call (*ComDoc).writeDirStream(_) ret (e): dirDone = (e == nil)
+//@   before call (*ComDoc).allocSectorTables(x): assert @table_sectors_are_allocated_after_every_stream_has_its_sectors x == r && stage == 0 && ssatDone && dirDone
 //@   on call (*ComDoc).allocSectorTables(_): stage = 3
 //@   before call (*ComDoc).writeSAT(x): assert @big_table_written_after_the_last_allocation x == r && stage == 3
-//@   on call (*ComDoc).writeSAT(_) ret (e): stage = ite(e == nil, 4, -1)
-//@   before call (*ComDoc).writeMSAT(x): assert @master_table_after_the_big_table_with_a_slot_for_every_listed_sector x == r && stage == 4 && len(r.MSAT) <= 109 + len(r.msatList) * (r.SectorSize / 4 - 1)
-//@   on call (*ComDoc).writeMSAT(_) ret (e): stage = ite(e == nil, 5, -1)
+//@   on call (*ComDoc).writeSAT(_) ret (e): satDone = (e == nil); stage = ite(msatDone && e == nil, 5, stage)
+//@   before call (*ComDoc).writeMSAT(x): assert @master_table_written_after_the_last_allocation_with_a_slot_for_every_listed_sector x == r && stage == 3 && len(r.MSAT) <= 109 + len(r.msatList) * (r.SectorSize / 4 - 1)
+//@   on call (*ComDoc).writeMSAT(_) ret (e): msatDone = (e == nil); stage = ite(satDone && e == nil, 5, stage)
 //@   before call (*os.File).WriteAt(w, b, off): assert @header_written_last_with_counts_that_agree_with_the_tables stage == 5 && off == 0 && \
 //@        r.Header.SATSectors == len(r.MSAT) % 4294967296 && r.Header.MSATSectorCount == len(r.msatList) % 4294967296 && r.Header.ByteOrder == 65534
 //@   on call (*os.File).WriteAt(_, _, _) ret (n, e): stage = ite(e == nil, 6, -1)
